@@ -27,7 +27,10 @@ RULE = ("forward: the (type tree, value, protocol version, input style) cases of
         "+-2^k+-1, k = 0..130, and 0, as a varint and as the unscaled value of a decimal (exponents 0, -2, 3, -20), bare / in a list / "
         "as a map key, forward and backward, enumerated completely.  vint-size-boundaries: vectors (dimension 1-3, every position) of "
         "variable-width element types (text, ascii, blob, varint, decimal, list, set, map, tuple) holding one element whose encoding is "
-        "exactly 0, 1, 126..129, 255, 256, 16383..16385 or 2^21-1..2^21+1 bytes, forward, backward and round trip.  The forward part also feeds timezone-aware datetimes (fixed "
+        "exactly 0, 1, 126..129, 255, 256, 16383..16385 or 2^21-1..2^21+1 bytes, forward, backward and round trip.  input-spellings: every accepted python spelling of a date (datetime.datetime at "
+        "five times of day incl. non-midnight, 'yyyy-mm-dd', datetime.date, util.Date), time ('HH:MM:SS.n', int, util.Time, "
+        "datetime.time) and timestamp (datetime.date, float, int, naive and aware datetime) value over 22 boundary days on both sides "
+        "of the epoch x 5 embeddings, enumerated; the Hypothesis parts draw the same spellings as input style 4.  The forward part also feeds timezone-aware datetimes (fixed "
         "offsets) whose bytes must be those of the UTC instant.  Non-trivial: forward/backward cases whose "
         "encoding is >= 2 bytes and whose value is in a boundary class or whose tree has depth >= 2; every range probe.")
 ASSUMPTIONS = [
@@ -43,7 +46,7 @@ SERIAL = os.environ.get("VERIF_TIER") == "quick"
 
 _BOUNDARY = {"int-boundary", "varint>=64bit", "non-bmp", "null-inside", "empty-collection", "v2-toplevel-collection",
              "ts-outside-1970-2038", "short-tuple", "float-special", "date-beyond-pydate", "decimal-big-exp", "duration-boundary",
-             "long>=128B", "ts-far", "decimal-neg-zero", "nul-char", "aware-datetime"}
+             "long>=128B", "ts-far", "decimal-neg-zero", "nul-char", "aware-datetime", "alt-spelling"}
 
 
 def s_forward_quick():
@@ -103,6 +106,9 @@ def interpret_forward(case, ctx):
     if style == 3 and V.contains_value(tree, value, "timestamp"):
         feats = feats | {"aware-datetime"}
         ctx.label("f:aware-datetime")
+    for sp in sorted(V.spelling_features(tree, value, style)):
+        feats = feats | {"alt-spelling"}
+        ctx.label("f:" + sp)
     if _out_of_domain(ctx, tree, pv):
         return
     try:
@@ -446,6 +452,44 @@ def interpret_vint_size(case, ctx):
             ctx.fail([sub, "vector-element-size", feat], "%s with an element of %d bytes does not decode to the value sent" % (V.cql_name(tree), case["size"]))
 
 
+# ----------------------------------------------------------------------------------------------------------------
+# alternate python spellings of date / time / timestamp values, enumerated
+# ----------------------------------------------------------------------------------------------------------------
+
+def interpret_spelling(case, ctx):
+    tree, value, obj = _drv.spelling_build(case)
+    pv = case["pv"]
+    feat = "%s-from-%s" % (case["leaf"], case["form"])
+    sub = ("pre-epoch" if case["n"] < 0 else "post-epoch") + ("-non-midnight" if case["tod_us"] else "")
+    ctx.label("spelling", "sp:" + feat, "sp:" + feat + ":" + sub, "embed:" + case["embed"])
+    ctx.nontrivial(True)
+    with ctx.driver(["C02.build", "direct", tree["t"]]):
+        typ = _drv.build_type(tree)
+    if ctx._failures:
+        return
+    expected = V.encode(tree, value, pv)
+    data = None
+    with ctx.driver(["C02.forward.encode", feat, sub]):
+        data = typ.to_binary(obj, pv)
+    if data is None:
+        return
+    if data != expected:
+        try:
+            seen = V.decode(tree, data, pv)
+        except V.SpecError as e:
+            seen = "<unreadable: %s>" % e
+        ctx.fail(["C02.forward", feat, sub], "%s given as %r (%s): driver wrote %s = %r, Cassandra writes %s = %r" % (
+            V.cql_name(tree), obj, case["embed"], data.hex(), seen, expected.hex(), value))
+    got, before = None, len(ctx._failures)
+    try:
+        with ctx.driver(["C02.backward.decode", _drv.shape(tree)], expect=(V.NormaliseError,)):
+            got = _drv.from_driver(tree, typ.from_binary(expected, pv))
+    except V.NormaliseError as e:
+        ctx.fail(["C02.backward.type", _drv.shape(tree)], str(e)[:300])
+    if len(ctx._failures) == before:
+        _report_diffs(ctx, "C02.backward", tree, pv, value, got, "image %s" % expected.hex()[:80])
+
+
 def parts(tier):
     q = tier == "quick"
     return [
@@ -459,5 +503,6 @@ def parts(tier):
         EnumPart("probes", _PROBE_CHUNKS, probe_cases, interpret_probe),
         EnumPart("varint-boundaries", _VB_CHUNKS, varint_boundary_cases, interpret_varint_boundary),
         EnumPart("vint-size-boundaries", _drv.vsb_chunks(), _drv.vsb_cases, interpret_vint_size),
+        EnumPart("input-spellings", _drv.spelling_chunks(), _drv.spelling_cases, interpret_spelling),
         hyp_part("range", s_random_range, interpret_probe, tier, quick=300, thorough=3000, quick_shards=1, thorough_shards=4),
     ]
